@@ -105,12 +105,48 @@ def has_touch(n):
 
 
 class Conv:
-    def __init__(self, touch=False):
+    def __init__(self, touch=False, keyed=None, plain_fields=None, calls=None):
         self.mutexes = {}
         self.touch = touch
+        self.keyed = keyed or {}            # written field -> name of the mutex field of the same object that must guard it
+        self.plain_fields = TOUCH_FIELDS if plain_fields is None else plain_fields
+        self.calls = TOUCH_CALLS if calls is None else calls
+
+    def lhs_object(self, n):
+        l = n['inner'][0]
+        while l.get('kind') in ('ImplicitCastExpr', 'ParenExpr'):
+            l = l['inner'][0]
+        return l
+
+    def touch_kind(self, n):
+        """None, 'Touch' or '(TouchM k)' for node n"""
+        k = n.get('kind')
+        if k == 'CallExpr' and callee(n) in self.calls:
+            return 'Touch'
+        is_write = (k in ('BinaryOperator', 'CompoundAssignOperator') and (k == 'CompoundAssignOperator' or n.get('opcode') == '=')) or (k == 'UnaryOperator' and n.get('opcode') in ('++', '--'))
+        if not is_write:
+            return None
+        l = self.lhs_object(n)
+        if l.get('kind') == 'ArraySubscriptExpr':        # a[i] = ...: judged by the array's name
+            b = l['inner'][0]
+            while b.get('kind') in ('ImplicitCastExpr', 'ParenExpr'):
+                b = b['inner'][0]
+            nm = b.get('name') if b.get('kind') == 'MemberExpr' else None
+            return 'Touch' if nm in self.plain_fields else None
+        if l.get('kind') != 'MemberExpr':
+            return None
+        f = l.get('name')
+        if f in self.keyed:
+            return '(TouchM %d)' % self.mid(key_of(l['inner'][0]) + ('->' if l.get('isArrow') else '.') + self.keyed[f])
+        return 'Touch' if f in self.plain_fields else None
+
+    def has_touch2(self, n):
+        if isinstance(n, dict):
+            return self.touch_kind(n) is not None or any(self.has_touch2(c) for c in n.get('inner', []))
+        return False
 
     def ev(self, n):
-        return has_lock(n) or (self.touch and has_touch(n))
+        return has_lock(n) or (self.touch and self.has_touch2(n))
 
     def mid(self, key):
         return self.mutexes.setdefault(key, len(self.mutexes))
@@ -150,8 +186,8 @@ class Conv:
             others = [c for c in n['inner'] if c is not body and c]
             if any(has_lock(c) for c in others):
                 raise Unsupported('lock call in a loop header')
-            if self.touch and any(has_touch(c) for c in others):
-                hd = self.seq([self.stmt(c) for c in others if has_touch(c)])
+            if self.touch and any(self.has_touch2(c) for c in others):
+                hd = self.seq([self.stmt(c) for c in others if self.has_touch2(c)])
                 return self.seq([hd, '(Loop %s)' % self.seq([b, hd])])
             return 'Skip' if b == 'Skip' else '(Loop %s)' % b
         if k == 'SwitchStmt':
@@ -182,8 +218,8 @@ class Conv:
             for a in reversed(alts):
                 r = '(If %s %s)' % (a, r)
             return '(Loop %s)' % r
-        if self.touch and is_touch(n):
-            return self.seq([self.stmt(c) for c in n.get('inner', []) if self.ev(c)] + ['Touch'])
+        if self.touch and self.touch_kind(n) is not None:
+            return self.seq([self.stmt(c) for c in n.get('inner', []) if self.ev(c)] + [self.touch_kind(n)])
         if k == 'CallExpr':
             c = n['inner'][0]
             while c.get('kind') in ('ImplicitCastExpr', 'ParenExpr'):
@@ -263,6 +299,20 @@ def generate_guard(src='Source/Lib/Common/Codec/EbSystemResourceManager.c'):
     out.append('Definition guard_functions : list (nat * stmt) := [%s].' % '; '.join('(%d, g_%d)' % (i, i) for i in range(len(names))))
     out.append('Definition guard_touches : nat := %d.' % sum(m['touches'] for m in meta))
     return '\n'.join(out) + '\n', dict(functions=meta)
+
+
+def generate_seg_guard(src='Source/Lib/Encoder/Codec/EbEncDecProcess.c', name='assign_enc_dec_segments'):
+    """Skeleton of the EncDec segment assignment with its shared accesses (gen/SegGuardGen.v): a write of a row's current_seg_index
+    inside a critical section must be inside the one of that row's assignment_mutex (same object expression); a write of the
+    dependency map must be inside some critical section."""
+    d = cast.function_decl(src, name)
+    body = [c for c in d.get('inner', []) if c.get('kind') == 'CompoundStmt'][0]
+    cv = Conv(touch=True, keyed={'current_seg_index': 'assignment_mutex'}, plain_fields={'dependency_map'}, calls=set())
+    sk = cv.stmt(body)
+    out = ['(* GENERATED by translators/tr_locks.py (generate_seg_guard) -- do not edit *)', 'From Coq Require Import List.', 'From SV Require Import GuardFlow.', 'Import ListNotations.', '',
+           '(* %s   mutexes %s *)' % (name, {v: k for k, v in cv.mutexes.items()}), 'Definition seg_assign : stmt := %s.' % sk,
+           'Definition seg_assign_keyed : nat := %d.' % sk.count('TouchM'), 'Definition seg_assign_plain : nat := %d.' % (sk.count('Touch') - sk.count('TouchM'))]
+    return '\n'.join(out) + '\n', dict(skeleton=sk, mutexes=cv.mutexes, keyed=sk.count('TouchM'), plain=sk.count('Touch') - sk.count('TouchM'))
 
 
 if __name__ == '__main__':
